@@ -20,7 +20,10 @@ Inductive pending :=
 | PFetchOrd (m : N) (a : A) (mk : mocker)                        (* next_ordered_call_index.fetch_add *)
 | PFetchCnt (m : N) (a : A) (i : nat) (p : pattern) (counted : bool)
      (* call_counter.fetch_add; [counted]: the call already took its place in the ghost order (ordered calls) *)
-| PLockSlot (m : N) (a : A) (i : nat) (p : pattern) (j : nat) (v : N)   (* take() of a single-use value *)
+| PLockSlot (m : N) (a : A) (i : nat) (p : pattern) (j : nat) (v : N)   (* take() of a single-use value (its first slot) *)
+| PLockLeaf (m : N) (a : A) (i : nat) (p : pattern) (j : nat) (v : N) (l : nat)
+     (* take() of the l-th FURTHER single-use slot of a composite value (src/output/deep/tuples.rs: the components' output() one
+        after the other, the first empty one ends the request) *)
 | PLockErr (e : mock_error).                                     (* panic_reasons.locked(push) *)
 
 Inductive next := NDone (act : action) | NPend (p : pending).
@@ -93,16 +96,22 @@ Definition after_cnt (m : N) (a : A) (i : nat) (p : pattern) (c : N) : next :=
   end.
 
 (* shared locations, for traces and the position log *)
-Inductive loc := LOrd | LCnt (m : N) (i : nat) | LSlot (m : N) (i j : nat) | LErrs.
+Inductive loc := LOrd | LCnt (m : N) (i : nat) | LSlot (m : N) (i j : nat) | LLeaf (m : N) (i j l : nat) | LErrs.
+
+Definition leaf_eqb (x y : N * nat * nat * nat) : bool :=
+  let '(m, i, j, l) := x in let '(m', i', j', l') := y in
+  (N.eqb m m' && Nat.eqb i i' && Nat.eqb j j' && Nat.eqb l l')%bool.
+Definition leaf_taken (ls : list (N * nat * nat * nat)) (x : N * nat * nat * nat) : bool := existsb (leaf_eqb x) ls.
 
 Record glob := {
   g_state : state;
   g_order : list (N * A);        (* ghost: calls in the order of their first counting step *)
   g_log : list (loc * N);        (* ghost: value obtained by every fetch_add, oldest first *)
-  g_deliv : list (N * nat * nat) (* ghost: single-use slots whose value was handed out, oldest first *)
+  g_deliv : list (N * nat * nat); (* ghost: single-use values that were handed out (all their slots), oldest first *)
+  g_leaf : list (N * nat * nat * nat)   (* the further slots of composite single-use values that are empty *)
 }.
 
-Definition init_glob : glob := {| g_state := init_state; g_order := []; g_log := []; g_deliv := [] |}.
+Definition init_glob : glob := {| g_state := init_state; g_order := []; g_log := []; g_deliv := []; g_leaf := [] |}.
 
 (* one atomic operation *)
 Definition exec (g : glob) (pd : pending) : glob * next * loc :=
@@ -111,22 +120,37 @@ Definition exec (g : glob) (pd : pending) : glob * next * loc :=
   | PFetchOrd m a mk =>
     let k := next_ord s in
     ({| g_state := set_next s (k + 1); g_order := g_order g ++ [(m, a)]; g_log := g_log g ++ [(LOrd, k)];
-        g_deliv := g_deliv g |},
+        g_deliv := g_deliv g; g_leaf := g_leaf g |},
      after_ord m a mk k, LOrd)
   | PFetchCnt m a i p counted =>
     let c := cnt s m i in
     ({| g_state := set_cnt s (bump (cnt s) m i);
         g_order := if counted then g_order g else g_order g ++ [(m, a)];
-        g_log := g_log g ++ [(LCnt m i, c)]; g_deliv := g_deliv g |},
+        g_log := g_log g ++ [(LCnt m i, c)]; g_deliv := g_deliv g; g_leaf := g_leaf g |},
      after_cnt m a i p c, LCnt m i)
   | PLockSlot m a i p j v =>
     if taken s m i j
     then (g, NPend (PLockErr (ECannotReturnValueMoreThanOnce (call_of m a) (debug_pattern m i p))), LSlot m i j)
-    else ({| g_state := set_taken s (take (taken s) m i j); g_order := g_order g; g_log := g_log g;
-             g_deliv := g_deliv g ++ [(m, i, j)] |},
-          NDone (ActReturn (RVTag v)), LSlot m i j)
+    else match mi_more_leaves (info m) with
+         | O => ({| g_state := set_taken s (take (taken s) m i j); g_order := g_order g; g_log := g_log g;
+                    g_deliv := g_deliv g ++ [(m, i, j)]; g_leaf := g_leaf g |},
+                 NDone (ActReturn (RVTag v)), LSlot m i j)
+         | S _ => ({| g_state := set_taken s (take (taken s) m i j); g_order := g_order g; g_log := g_log g;
+                      g_deliv := g_deliv g; g_leaf := g_leaf g |},
+                   NPend (PLockLeaf m a i p j v 1), LSlot m i j)
+         end
+  | PLockLeaf m a i p j v l =>
+    if leaf_taken (g_leaf g) (m, i, j, l)
+    then (g, NPend (PLockErr (ECannotReturnValueMoreThanOnce (call_of m a) (debug_pattern m i p))), LLeaf m i j l)
+    else if Nat.ltb l (mi_more_leaves (info m))
+         then ({| g_state := s; g_order := g_order g; g_log := g_log g; g_deliv := g_deliv g;
+                  g_leaf := (m, i, j, l) :: g_leaf g |},
+               NPend (PLockLeaf m a i p j v (S l)), LLeaf m i j l)
+         else ({| g_state := s; g_order := g_order g; g_log := g_log g; g_deliv := g_deliv g ++ [(m, i, j)];
+                  g_leaf := (m, i, j, l) :: g_leaf g |},
+               NDone (ActReturn (RVTag v)), LLeaf m i j l)
   | PLockErr e =>
-    ({| g_state := push_err s e; g_order := g_order g; g_log := g_log g; g_deliv := g_deliv g |},
+    ({| g_state := push_err s e; g_order := g_order g; g_log := g_log g; g_deliv := g_deliv g; g_leaf := g_leaf g |},
      NDone (ActPanic e), LErrs)
   end.
 
@@ -200,8 +224,8 @@ Fixpoint trace (sched : list nat) (st : glob * list thread) : list (nat * loc) :
 
 End Conc.
 
-Arguments PFetchOrd {A}. Arguments PFetchCnt {A}. Arguments PLockSlot {A}. Arguments PLockErr {A}.
+Arguments PFetchOrd {A}. Arguments PFetchCnt {A}. Arguments PLockSlot {A}. Arguments PLockLeaf {A}. Arguments PLockErr {A}.
 Arguments NDone {A}. Arguments NPend {A}.
-Arguments g_state {A}. Arguments g_order {A}. Arguments g_log {A}. Arguments g_deliv {A}. Arguments Build_glob {A}.
+Arguments g_state {A}. Arguments g_order {A}. Arguments g_log {A}. Arguments g_deliv {A}. Arguments g_leaf {A}. Arguments Build_glob {A}.
 Arguments t_calls {A}. Arguments t_pend {A}. Arguments t_out {A}. Arguments Build_thread {A}.
 Arguments init_glob {A}.
